@@ -12,9 +12,14 @@
      r.prev, cur.next, the results of calls) are evaluated just before the statement and are
      variables of that statement.  So `r.next = s` turned into `r.next = rnext`, or a dropped
      assignment (its anchor is lost), changes this model.
+   - the ORDER of the pointer statements of New's loop body, Join and Pop: each statement carries
+     the position the translator found it at and [in_order] runs them by position;
+   - the direction of At's walk (next := Next, next = Prev), as names of the two methods;
+   - the statement skeleton of every function (shape_*; compared in Ring/RingProofsTie.v), so an
+     added or removed statement is noticed at make.
    What is written by hand: which field of which variable a statement assigns (the anchor of the
-   statement is selected by that very text, so changing it loses the anchor), the ORDER of the
-   statements, and the direction flag of At (see notes/C10_ring-requests.md).
+   statement is selected by that very text, so changing it loses the anchor), and the nesting of
+   the statements in ifs and loops (covered by shape_* and the generated conditions).
 
    Ring/RingPlain.v has the same functions with the right-hand sides written out; the proofs work
    on those and Ring/RingProofsTie.v proves model = plain.
@@ -48,15 +53,20 @@ Fixpoint new_loop (fuel : nat) (r : ptr) (n : Z) : M unit :=
   | O => if new_more n then out_of_fuel else ret tt
   | S f =>
     if new_more n then
-      fresh <- new_ring ;;
-      elt <- pick [None; r; fresh] (new_elt_init 0 1 2) ;;                           (* elt := newRing() *)
-      rn <- get_next r ;;
-      x <- pick [None; r; elt; rn] (new_w_elt_next 0 1 2 3) ;; set_next elt x ;;;    (* elt.next = r.next *)
-      rn' <- get_next r ;;
-      y <- pick [None; r; elt] (new_w_rnext_prev 0 1 2) ;; set_prev rn' y ;;;        (* r.next.prev = elt *)
-      z <- pick [None; r; elt] (new_w_elt_prev 0 1 2) ;; set_prev elt z ;;;          (* elt.prev = r *)
-      w <- pick [None; r; elt] (new_w_r_next 0 1 2) ;; set_next r w ;;;              (* r.next = elt *)
-      new_loop f r (new_dec n)                                                      (* n-- *)
+      in_order
+        [ (new_pos_elt, fun env k =>                                                (* elt := newRing() *)
+             fresh <- new_ring ;; elt <- pick [None; r; fresh] (new_elt_init 0 1 2) ;; k [None; r; elt]);
+          (new_pos_w0, fun env k =>                                                 (* elt.next = r.next *)
+             elt <- pick env 2 ;; rn <- get_next r ;;
+             x <- pick (env ++ [rn]) (new_w_elt_next 0 1 2 3) ;; set_next elt x ;;; k env);
+          (new_pos_w1, fun env k =>                                                 (* r.next.prev = elt *)
+             rn <- get_next r ;; y <- pick env (new_w_rnext_prev 0 1 2) ;; set_prev rn y ;;; k env);
+          (new_pos_w2, fun env k =>                                                 (* elt.prev = r *)
+             elt <- pick env 2 ;; z <- pick env (new_w_elt_prev 0 1 2) ;; set_prev elt z ;;; k env);
+          (new_pos_w3, fun env k =>                                                 (* r.next = elt *)
+             w <- pick env (new_w_r_next 0 1 2) ;; set_next r w ;;; k env) ]
+        [None; r; None]
+        (fun _ => new_loop f r (new_dec n))                                         (* n-- *)
     else ret tt
   end.
 
@@ -98,29 +108,48 @@ Definition join (r s : ptr) : M ptr :=
   rn <- (if ptr_eqb r s then ret r else get_next r) ;;
   if join_early (enc r) (enc s) (enc rn) then pick [None; r; s] (join_ret_early 0 1 2)
   else
-    a <- get_next r ;; rnext <- pick [None; r; s; a] (join_rnext 0 1 2 3) ;;         (* rnext, sprev := *)
-    b <- get_prev s ;; sprev <- pick [None; r; s; b] (join_sprev 0 1 2 3) ;;         (*   r.next, s.prev *)
-    let env := [None; r; s; rnext; sprev] in
-    x <- pick env (join_w_r_next 0 1 2 3 4) ;; set_next r x ;;;                      (* r.next = s *)
-    y <- pick env (join_w_s_prev 0 1 2 3 4) ;; set_prev s y ;;;                      (* s.prev = r *)
-    z <- pick env (join_w_sprev_next 0 1 2 3 4) ;; set_next sprev z ;;;              (* sprev.next = rnext *)
-    w <- pick env (join_w_rnext_prev 0 1 2 3 4) ;; set_prev rnext w ;;;              (* rnext.prev = sprev *)
-    pick env (join_ret 0 1 2 3 4).
+    in_order
+      [ (join_pos_rnext, fun env k =>                                               (* rnext, sprev := *)
+           a <- get_next r ;; rnext <- pick [None; r; s; a] (join_rnext 0 1 2 3) ;; (*   r.next, s.prev *)
+           sprev <- pick env 4 ;; k [None; r; s; rnext; sprev]);
+        (join_pos_sprev, fun env k =>
+           b <- get_prev s ;; sprev <- pick [None; r; s; b] (join_sprev 0 1 2 3) ;;
+           rnext <- pick env 3 ;; k [None; r; s; rnext; sprev]);
+        (join_pos_w0, fun env k =>                                                  (* r.next = s *)
+           x <- pick env (join_w_r_next 0 1 2 3 4) ;; set_next r x ;;; k env);
+        (join_pos_w1, fun env k =>                                                  (* s.prev = r *)
+           y <- pick env (join_w_s_prev 0 1 2 3 4) ;; set_prev s y ;;; k env);
+        (join_pos_w2, fun env k =>                                                  (* sprev.next = rnext *)
+           sprev <- pick env 4 ;; z <- pick env (join_w_sprev_next 0 1 2 3 4) ;; set_next sprev z ;;; k env);
+        (join_pos_w3, fun env k =>                                                  (* rnext.prev = sprev *)
+           rnext <- pick env 3 ;; w <- pick env (join_w_rnext_prev 0 1 2 3 4) ;; set_prev rnext w ;;; k env) ]
+      [None; r; s; None; None]
+      (fun env => pick env (join_ret 0 1 2 3 4)).                                   (* return rnext *)
 
 (* Pop.  [r != nil && r.prev != r] short-circuits: r.prev is read only when r != nil.
    names: 0 nil, 1 r, 2 rprev, 3 rnext, 4 the field of r read by the statement *)
 Definition pop (r : ptr) : M ptr :=
   rp <- (if ptr_eqb r None then ret None else get_prev r) ;;
   (if pop_cond (enc r) (enc rp) znil then
-     a <- get_prev r ;; rprev <- pick [None; r; a] (pop_rprev 0 1 2) ;;              (* rprev, rnext := *)
-     b <- get_next r ;; rnext <- pick [None; r; b] (pop_rnext 0 1 2) ;;              (*   r.prev, r.next *)
-     let env := [None; r; rprev; rnext] in
-     c <- get_next r ;;
-     x <- pick (env ++ [c]) (pop_w_rprev_next 0 1 2 3 4) ;; set_next rprev x ;;;     (* rprev.next = r.next *)
-     d <- get_prev r ;;
-     y <- pick (env ++ [d]) (pop_w_rnext_prev 0 1 2 3 4) ;; set_prev rnext y ;;;     (* rnext.prev = r.prev *)
-     z <- pick env (pop_w_r_prev 0 1 2 3) ;; set_prev r z ;;;                        (* r.prev = r *)
-     w <- pick env (pop_w_r_next 0 1 2 3) ;; set_next r w                            (* r.next = r *)
+     in_order
+       [ (pop_pos_rprev, fun env k =>                                               (* rprev, rnext := *)
+            a <- get_prev r ;; rprev <- pick [None; r; a] (pop_rprev 0 1 2) ;;      (*   r.prev, r.next *)
+            rnext <- pick env 3 ;; k [None; r; rprev; rnext]);
+         (pop_pos_rnext, fun env k =>
+            b <- get_next r ;; rnext <- pick [None; r; b] (pop_rnext 0 1 2) ;;
+            rprev <- pick env 2 ;; k [None; r; rprev; rnext]);
+         (pop_pos_w0, fun env k =>                                                  (* rprev.next = r.next *)
+            rprev <- pick env 2 ;; c <- get_next r ;;
+            x <- pick (env ++ [c]) (pop_w_rprev_next 0 1 2 3 4) ;; set_next rprev x ;;; k env);
+         (pop_pos_w1, fun env k =>                                                  (* rnext.prev = r.prev *)
+            rnext <- pick env 3 ;; d <- get_prev r ;;
+            y <- pick (env ++ [d]) (pop_w_rnext_prev 0 1 2 3 4) ;; set_prev rnext y ;;; k env);
+         (pop_pos_w2, fun env k =>                                                  (* r.prev = r *)
+            z <- pick env (pop_w_r_prev 0 1 2 3) ;; set_prev r z ;;; k env);
+         (pop_pos_w3, fun env k =>                                                  (* r.next = r *)
+            w <- pick env (pop_w_r_next 0 1 2 3) ;; set_next r w ;;; k env) ]
+       [None; r; None; None]
+       (fun _ => ret tt)
    else ret tt) ;;;
   pick [None; r] (pop_ret 0 1).
 
@@ -141,13 +170,19 @@ Fixpoint at_loop_gen (norm : Z -> Z) (fuel : nat) (back : bool) (step : Z) (r cu
     else pick [None; r; cur] (at_ret 0 1 2)
   end.
 
+(* the method value held by At's variable [next]: 1 names Next, 2 names Prev *)
+Definition dir_back (d : Z) : M bool :=
+  if (d =? 1)%Z then ret false else if (d =? 2)%Z then ret true else fault.
+
 Definition at_gen (norm : Z -> Z) (r : ptr) (n : Z) : M ptr :=
   if at_nil (enc r) znil then pick [None; r] (at_ret_nilrecv 0 1)
   else
     sz <- heap_size ;;
     cur <- pick [None; r] (at_cur_init 0 1) ;;                                       (* cur := r *)
-    if at_neg n then at_loop_gen norm (S sz) true at_step_back r cur n
-    else at_loop_gen norm (S sz) false at_step_fwd r cur n.
+    if at_neg n then                                       (* next, step = Prev, -1 *)
+      back <- dir_back (at_dir_back 1 2) ;; at_loop_gen norm (S sz) back at_step_back r cur n
+    else                                                   (* next, step := Next, 1 *)
+      back <- dir_back (at_dir_fwd 1 2) ;; at_loop_gen norm (S sz) back at_step_fwd r cur n.
 
 Definition at_loop := at_loop_gen (fun z => z).
 Definition at_ (r : ptr) (n : Z) : M ptr := at_gen (fun z => z) r n.
